@@ -269,4 +269,17 @@ def perturb_variant(rng, var, data):
             o = dict(cp.get("options") or {})
             o["at_least"] = rng.choice([1, 2])
             cp["options"] = o
+    for cp in v["cps"]:
+        # same gate as gen_cp: a coverpoint whose every bin value is ignored/illegal has
+        # no bins at all and no defined coverage (the library divides by zero)
+        if cp.get("bins"):
+            ex = set()
+            for d_ in (cp.get("ignore") or {}, cp.get("illegal") or {}):
+                for it_ in d_.values():
+                    ex |= set(_vals(it_))
+            allv = set()
+            for sp_ in cp["bins"].values():
+                allv |= set(_vals(sp_["items"]))
+            if allv <= ex:
+                return copy.deepcopy(var)
     return v
